@@ -76,6 +76,19 @@ def run(res, tier):
             bad.append(dict(info, **desc, X=X.tolist()))
         if len(samples) < 3:
             samples.append(desc)
+    # DMDc with a truncating SVD of the unshifted data (the returned A is Q_hat A_hat Q_hat^T and must inherit the bound)
+    sweep = [(k, r, rho) for k in ('unstable', 'marginal') for r in ('strong', 'mild') for rho in (0.6, 0.9)]
+    for j, (kind, strength, rho) in enumerate(sweep if tier == 'quick' else sweep * 5):
+        ns = 3 if j % 2 == 0 else 2; nu = 2
+        rank = ns if strength == 'strong' else ns + nu - 1
+        try:
+            info, desc, X = one_fit(rng, 'dmdc', kind, ns, nu, rho, 3, ('rank', rank))
+        except Exception:  # noqa
+            dist['fit_error'] = dist.get('fit_error', 0) + 1
+            continue
+        dist['dmdc_truncation_sweep'] = dist.get('dmdc_truncation_sweep', 0) + 1
+        if info:
+            bad.append(dict(info, **desc, X=X.tolist()))
     # history: the same estimator object refitted after set_params must behave as a fresh one (log included)
     for h in range(3 if tier == 'quick' else 20):
         cls = [L.LmiEdmdSpectralRadiusConstr, L.LmiDmdcSpectralRadiusConstr][h % 2]
